@@ -2,7 +2,7 @@
    which quotas are promised "used <= max", and that the promise is kept. *)
 From Coq Require Import List ZArith Bool Lia.
 From Verif Require Import Lib.ListX C02.Model C03.Model C03.Spec C03.Proofs C03.Proofs_Runtime
-     C03.Proofs_Inv C03.Proofs_Flight C03.Proofs_Step.
+     C03.Proofs_Inv C03.Proofs_Flight C03.Proofs_Step C03.Proofs_Exact.
 Import ListNotations.
 Open Scope Z_scope.
 
@@ -127,6 +127,10 @@ Proof.
     apply TI_touch. destruct (p_assigned p); [unfold refund; apply TI_upd_used|]; exact T.
   - exact T.
   - discriminate Hb.
+  - (* allow-lent flip *)
+    destruct (find_quota id (quotas st)) as [q00|]; cbn [fst quotas]; [|exact T].
+    apply TI_refresh. apply TI_map; [apply neutral_keeps, neutral_flip| |exact T].
+    intros q _. destruct (q_id q =? id); reflexivity.
   - exact T.
 Qed.
 
@@ -303,5 +307,34 @@ Proof.
     destruct (taint_taint_ids _ _ _ H2 T2) as [(q0 & H0 & E0 & T0)|Hin].
     + left. exists q0. auto.
     + right. exact Hin.
+  - (* allow-lent flip *)
+    destruct (find_quota id (quotas st)) as [q00|]; cbn [fst quotas]; [|intros H Ht; left; exists q'; auto].
+    intros H Ht. destruct (taint_refresh _ _ _ _ H Ht) as (q1 & H1 & E1 & T1). rewrite <- E1.
+    left. apply (taint_map_same (fun q => if q_id q =? id then set_lend q (negb (q_lend q)) else q) (quotas st) q1);
+      [|exact H1|exact T1].
+    intro q. destruct (q_id q =? id); split; reflexivity.
   - intros H Ht; left; exists q'; auto.
+Qed.
+
+(* ---------- the usage figures are the from-scratch sums ---------- *)
+Lemma ALL_exec cfg : forall ops wf st sn,
+  INV cfg wf st -> FL wf st sn -> EXI wf st ->
+  INV cfg (wf && wf_hist cfg st sn ops) (exec cfg st ops)
+  /\ EXI (wf && wf_hist cfg st sn ops) (exec cfg st ops).
+Proof.
+  induction ops as [|o t IH]; intros wf st sn I F X; cbn [exec wf_hist].
+  - rewrite andb_true_r. split; assumption.
+  - rewrite andb_assoc. apply (IH _ _ (track cfg st sn o));
+      [apply INV_step|apply FL_step|apply (EXI_step cfg wf st sn)]; assumption.
+Qed.
+
+Theorem used_exact_hist cfg ops :
+  wf_hist cfg init_state None ops = true ->
+  let st := exec cfg init_state ops in
+  forall q, In q (quotas st) -> forall d,
+    vget (q_used q) d = exp_used st q d /\ vget (q_npused q) d = exp_npused st q d.
+Proof.
+  intros Hw st q Hq d.
+  destruct (ALL_exec cfg ops true init_state None (INV_init cfg true) (FL_init true) (EXI_init true)) as [_ [_ E]].
+  rewrite Hw in E. specialize (E eq_refl q Hq d). rewrite exp_used_expq, exp_npused_expq. exact E.
 Qed.
